@@ -3,6 +3,7 @@ package checks
 import (
 	"encoding/json"
 	"fmt"
+	"os"
 	"sort"
 	"strings"
 	"time"
@@ -337,7 +338,11 @@ func runC20(c *Ctx) {
 	const chunk = 4096
 	perBound := map[int]int64{}
 	conformanceRuns, conformanceOK := 0, 0
+	only := os.Getenv("VERIF_C20_ONLY") // development: explore the scenarios whose name starts with this
 	for si, sc := range scen {
+		if only != "" && !strings.HasPrefix(sc.name, only) {
+			continue
+		}
 		for bi, b := range budgets {
 			if c.Expired() {
 				c.Cap("internal deadline: " + sc.name + " / " + b.name + " not explored")
